@@ -7,11 +7,14 @@
    * on a strict reader no successful skip or read ever leaves the stream;
    * span bookkeeping: extending the span by a box that starts where it ends keeps the span contiguous and
      ending at the end of that box; a box that does not start there leaves it untouched.
-  The scan-loop invariant lifting these to `span ⊆ input` for every run (`C03_span_within_input`) and the
-  "maximal media run" statement are established per generated case by `Spec_C03` on the real output for
-  every provided reader kind; their proof over the loop is listed as future work in DESIGN.md.
+   * `C03_span_within_input`: for EVERY input and configuration, on seek-based and strict cursors alike, a returned
+     span satisfies offset + len ≤ input length — proved with the program logic of Lemmas/Hoare.lean over the scan
+     loop (invariant: the collected span lies behind the cursor; the end-of-scan check bounds the cursor by the
+     length).
+  The "maximal media run" half of the statement is established per generated case by `Spec_C03` on the real output.
 -/
 import MediaSan.Lemmas.Prog
+import MediaSan.Lemmas.ScanSafe
 import MediaSan.Mp4.Sanitize
 namespace MediaSan.Props.C03
 open MediaSan MediaSan.Mp4
@@ -73,6 +76,30 @@ theorem C03_extend (d : Span) (startPos boxSize : Nat) (hfit : startPos + boxSiz
   · have h2 : d.len + boxSize ≤ u64Max := by omega
     simp only [he, h2, bind, Prog.bind, if_true]; rfl
   · simp only [he, bind, Prog.bind, if_false]; rfl
+
+/-- On success the returned span lies inside the input: offset + len ≤ input length — for every stream below 2^64
+    bytes, seek-based or strict `skip`, every configuration with a 32-bit cumulative size and a limit ≤ 4·(2^32−1).
+    (On a seek-based cursor this is exactly what the repaired defect F1 violated.) -/
+theorem C03_span_within_input (s : Stream) (kind : SkipKind) (cfg : Config) (hlen : s.len < u64Lim)
+    (hcum : ∀ t, cfg.cumulativeMdatBoxSize = some t → t ≤ u32Max) (hmax : cfg.maxMetadataSize ≤ 4 * u32Max)
+    (r : Sanitized) (h : Mp4.sanitize s kind cfg = .ok r) : r.data.offset + r.data.len ≤ s.len := by
+  have hs := sanitizeP_span s kind hlen cfg hcum hmax
+  unfold Safe at hs
+  simp only [Mp4.sanitize, Mp4.sanitizeWith, run_eq_runF] at h
+  cases hr : (sanitizeP cfg (fuelFor s)).runF (idealOps s kind) 0 with
+  | ok x =>
+    obtain ⟨a, p⟩ := x
+    rw [hr] at hs h
+    cases a with
+    | none => simp [Outcome.fst] at h
+    | some r' =>
+      simp only [Outcome.fst, Outcome.ok.injEq] at h
+      subst h
+      exact hs r' rfl
+  | parseErr e => rw [hr] at h; simp [Outcome.fst] at h
+  | ioErr k => rw [hr] at h; simp [Outcome.fst] at h
+  | panic site => rw [hr] at h; simp [Outcome.fst] at h
+  | outOfFuel => rw [hr] at h; simp [Outcome.fst] at h
 
 -- Non-vacuity
 example : checkEnd.run (idealOps (Stream.ofBytes [1,2,3]) .seekable) 1000 = .parseErr .truncatedBox := by decide
